@@ -137,6 +137,16 @@ where
                     codec.encode(called_ae_title).context(EncodeFieldSnafu {
                         field: "Called-AE-title",
                     })?;
+                if ae_title_bytes.len() > 16 {
+                    // the field holds exactly 16 bytes: fail instead of cutting the title short
+                    return Err(std::io::Error::new(
+                        std::io::ErrorKind::InvalidInput,
+                        "AE title longer than 16 bytes",
+                    ))
+                    .context(WriteFieldSnafu {
+                        field: "Called-AE-title",
+                    });
+                }
                 ae_title_bytes.resize(16, b' ');
                 writer.write_all(&ae_title_bytes).context(WriteFieldSnafu {
                     field: "Called-AE-title",
@@ -151,6 +161,16 @@ where
                     codec.encode(calling_ae_title).context(EncodeFieldSnafu {
                         field: "Calling-AE-title",
                     })?;
+                if ae_title_bytes.len() > 16 {
+                    // the field holds exactly 16 bytes: fail instead of cutting the title short
+                    return Err(std::io::Error::new(
+                        std::io::ErrorKind::InvalidInput,
+                        "AE title longer than 16 bytes",
+                    ))
+                    .context(WriteFieldSnafu {
+                        field: "Calling-AE-title",
+                    });
+                }
                 ae_title_bytes.resize(16, b' ');
                 writer.write_all(&ae_title_bytes).context(WriteFieldSnafu {
                     field: "Called-AE-title",
@@ -232,6 +252,16 @@ where
                     codec.encode(called_ae_title).context(EncodeFieldSnafu {
                         field: "Called-AE-title",
                     })?;
+                if ae_title_bytes.len() > 16 {
+                    // the field holds exactly 16 bytes: fail instead of cutting the title short
+                    return Err(std::io::Error::new(
+                        std::io::ErrorKind::InvalidInput,
+                        "AE title longer than 16 bytes",
+                    ))
+                    .context(WriteFieldSnafu {
+                        field: "Called-AE-title",
+                    });
+                }
                 ae_title_bytes.resize(16, b' ');
                 writer.write_all(&ae_title_bytes).context(WriteFieldSnafu {
                     field: "Called-AE-title",
@@ -243,6 +273,16 @@ where
                     codec.encode(calling_ae_title).context(EncodeFieldSnafu {
                         field: "Calling-AE-title",
                     })?;
+                if ae_title_bytes.len() > 16 {
+                    // the field holds exactly 16 bytes: fail instead of cutting the title short
+                    return Err(std::io::Error::new(
+                        std::io::ErrorKind::InvalidInput,
+                        "AE title longer than 16 bytes",
+                    ))
+                    .context(WriteFieldSnafu {
+                        field: "Calling-AE-title",
+                    });
+                }
                 ae_title_bytes.resize(16, b' ');
                 writer.write_all(&ae_title_bytes).context(WriteFieldSnafu {
                     field: "Calling-AE-title",
